@@ -1,3 +1,5 @@
+pub mod common;
 pub mod probes;
 mod probes2;
 mod probes3;
+mod leaf;
